@@ -6,7 +6,7 @@ from common import R, Rvec, Cx, fl, cfl
 
 from common import wiring_pre_build as pre_build  # noqa: E402,F401
 
-LEAN_MODULES = ["PyomaVerif.Props.C06", "PyomaVerif.Mutants.C06", "PyomaVerif.Props.WiringMpe"]
+LEAN_MODULES = ["PyomaVerif.Props.C06", "PyomaVerif.Mutants.C06", "PyomaVerif.Props.WiringMpe", "PyomaVerif.Props.C06C13"]
 THEOREMS = [
     # call-site wiring of the class layer, regenerated from /repo on every run (translate_wiring.py)
     "PV.WiringMpe.C06_fdd_mpe_wiring",
@@ -25,6 +25,27 @@ THEOREMS = [
     "PV.Mutants.C06.pick_from_grid_start_fails",
     "PV.Mutants.C06.last_max_fails",
     "PV.Mutants.C06.no_conj_fails",
+    # C06 o C13: the FDD premise derived from the estimator model (rank-one / Phi S Phi^T spectrum, returned shape = a/a[argmax|a|])
+    "PV.C06C13.C13_rank_one_per_entry",
+    "PV.C06C13.C13_rank_one_cor_entry",
+    "PV.C06C13.C13_rank_one_per",
+    "PV.C06C13.C13_rank_one_cor",
+    "PV.C06C13.C13_superposition_per",
+    "PV.C06C13.C13_superposition_cor",
+    "PV.C06C13.fdd_shape_of_first_left",
+    "PV.C06C13.fdd_shape_of_rank_one",
+    "PV.C06C13.fdd_shape_of_rank_one_svd",
+    "PV.C06C13.C06C13_shape_per",
+    "PV.C06C13.C06C13_shape_cor",
+    "PV.C06C13.C06C13_shape_per_svd",
+    "PV.C06C13.C06C13_shape_cor_svd",
+    "PV.C06C13.unitShape_spec",
+    "PV.C06C13.C06C13_mac_one",
+    "PV.C06C13.ex_run_per",
+    "PV.C06C13.ex_run_cor",
+    "PV.C06C13.ex_leading_per",
+    "PV.C06C13.ex_leading_cor",
+    "PV.C06C13.ex_dec_per",
 ]
 RULE = (
     "correspondence: fdd.FDD_mpe vs Fdd.fddMpe on random increasing grids (uniform k*df and irregular), random "
@@ -35,7 +56,11 @@ RULE = (
     "and half-spectrum sequences with a planted dominant line through SD_svalsvec+FDD_mpe, and narrow-band multi-channel "
     "records through FDD/EFDD/FSDD (SingleSetup, per and cor) and FDD_MS (MultiSetup_PreGER): line = brute-force argmax of "
     "sigma1/sigma2 between the nearest lines to the band edges, MAC with an independently computed dominant vector, "
-    "complex amplitudes of the planted response, faithful decomposition. distinct = (path, channels, references, lines, band width)"
+    "complex amplitudes of the planted response, faithful decomposition. distinct = (path, channels, references, lines, band width). "
+    "oracle stream 3 (C06 o C13, end to end on the real code): channels a_i*s(t) (s a multi-sine or band-passed noise; a real with a negative and a "
+    "near-zero component) through fdd.SD_est (per and cor) + SD_svalsvec + FDD_mpe and through SingleSetup/FDD.run/mpe: Sy = S(k) a a^T at every line "
+    "(1e-11 of the peak), second singular value <= 1e-9 x first at the picked line, MAC(returned shape, a) >= 1-1e-9, shape = a/a[argmax|a|] (1e-9); "
+    "a sum of 2-3 such responses gives Sy = Phi S Phi^T (1e-11 of the peak)"
 )
 EXTRA_TRUSTED = [
     "np.linalg.svd contract (U unitary, S non-negative non-increasing, A = U diag(S) V^H): hypotheses of C06_convention / C06_faithful_partial, validated numerically by the oracle at 1e-9",
@@ -131,6 +156,18 @@ def correspondence(ctx):
         sel = [rng.uniform(freq[0], freq[-1]) for _ in range(nsel)]
         width = rng.uniform(1.0, 8.0)
         DF = width * float(np.max(np.diff(freq))) if kind == "irregular" else width * df
+        # near-maximum stream: a line at a LOWER frequency of the band whose ratio is smaller than the band's
+        # maximum by a few parts per million only ("largest" is still well defined: 1e-4..1e-8 relative is
+        # far above rounding) -- an approximate comparison would pick it
+        if rng.random() < 0.35:
+            lo0, hi0 = _nearest(freq, sel[0] - DF, df), _nearest(freq, sel[0] + DF, df)
+            if lo0 is not None and hi0 is not None and hi0 - lo0 >= 2:
+                i0 = rng.randint(lo0, hi0 - 2)
+                j0 = rng.randint(i0 + 1, hi0 - 1)
+                rmax = 1.5 * float(np.max(Sval[0, 0, lo0:hi0] / Sval[1, 1, lo0:hi0]))
+                Sval[0, 0, j0] = Sval[1, 1, j0] * rmax
+                Sval[0, 0, i0] = Sval[1, 1, i0] * rmax * (1.0 - 10.0 ** -rng.uniform(3.5, 8.0))
+                ctx.count("mpe_near_maximum_runner_up")
         # tie guard
         ok_case = True
         for s in sel:
@@ -425,6 +462,19 @@ def oracle(ctx, scale):
         _class_case(ctx, prm)
         ctx.count(f"oracle_class_{which}_{prm['method_SD']}")
         ctx.count("oracle_class_sel_descending" if sels[0] > sels[1] else "oracle_class_sel_ascending")
+    # (3) C06 o C13 end to end: proportional channels a_i*s(t) -> SD_est -> SD_svalsvec -> FDD_mpe, functions and class layer
+    for it in range(ctx.n(40, 500) * scale):
+        nxseg = rng.choice([32, 64, 128, 256, 512])
+        fs = rng.choice([50.0, 100.0, 256.0, 1200.0])
+        df = fs / nxseg
+        prm = {"path": "proportional", "nch": rng.randint(2, 8), "fs": fs, "nxseg": nxseg,
+               "N": nxseg * rng.randint(3, 16) + rng.choice([0, 0, rng.randint(1, nxseg - 1)]),
+               "kind": rng.choice(["multisine", "filtered"]), "method_SD": rng.choice(["per", "cor"]),
+               "pov": rng.choice([0.0, 0.25, 0.5, 0.75]), "sel": rng.uniform(0.06, 0.44) * fs, "DF": rng.uniform(1.5, 6.0) * df,
+               "scale_exp": rng.uniform(-3, 3), "tiny_exp": rng.uniform(-12, -6), "nsrc": rng.choice([0, 0, 2, 3]),
+               "data_seed": rng.getrandbits(40)}
+        for tag in _prop_case(ctx, prm):
+            ctx.count(tag)
 
 
 def _class_case(ctx, prm):
@@ -512,6 +562,148 @@ def _class_case(ctx, prm):
                         inp, amp=amp if abs(Fns[i] - f_true) <= df else None, amp_tol=AMP_TOL[msd])
 
 
+PROP_TOL = 1e-9  # 1 - MAC(returned shape, a) (measured over ~3000 cases: <= 6e-16)
+PROP_SV_TOL = 1e-9  # second / first singular value of Sy at the picked line (measured: <= 5e-15)
+PROP_SHAPE_TOL = 1e-9  # max |returned shape - a/a[argmax|a|]|, judged where |S(k)| >= 1e-6 max|S| (measured there: <= 2e-12)
+PROP_ENTRY_TOL = 1e-11  # |Sy - S a a^T| relative to the peak of |S| max|a|^2 (measured: <= 6e-16; superposition <= 3e-15)
+
+
+def _prop_signal(g, kind, N, fs):
+    from scipy import signal
+
+    t = np.arange(N) / fs
+    if kind == "multisine":
+        return sum(g.uniform(0.2, 2.0) * np.cos(2 * np.pi * g.uniform(0.02, 0.45) * fs * t + g.uniform(0, 2 * np.pi))
+                   for _ in range(int(g.integers(1, 5))))
+    lo = g.uniform(0.05, 0.5)
+    b, a = signal.butter(2, [lo, min(lo + g.uniform(0.1, 0.4), 0.95)], btype="band")
+    return signal.lfilter(b, a, g.standard_normal(N))
+
+
+def _prop_case(ctx, prm):
+    """C06 o C13 on the real code, fully determined by `prm` (replayable). Returns distribution tags."""
+    import warnings
+
+    fdd = _fdd()
+    from pyoma2.algorithms import FDD
+    from pyoma2.setup import SingleSetup
+
+    nch, fs, nxseg, N, kind, msd, pov, sel, DF = (prm[k] for k in ("nch", "fs", "nxseg", "N", "kind", "method_SD", "pov", "sel", "DF"))
+    g = np.random.default_rng(prm["data_seed"])
+    s = _prop_signal(g, kind, N, fs)
+    a = g.standard_normal(nch) * 10.0 ** prm["scale_exp"]
+    jt = int(g.integers(nch))
+    a[jt] *= 10.0 ** prm["tiny_exp"]  # one near-zero component
+    jn = int(g.integers(nch))
+    a[jn] = -abs(a[jn])  # at least one negative component
+    if nch > 1 and (a > 0).sum() == 0:
+        a[(jn + 1) % nch] = abs(a[(jn + 1) % nch])
+    Y = np.outer(a, s)  # channels x samples
+    dt = 1 / fs
+    inp = dict(prm)
+    tags = [f"prop_{msd}", f"prop_{kind}", f"prop_nch_{nch}", "prop_tiny_below_1e-9" if prm["tiny_exp"] < -9 else "prop_tiny_1e-9_to_1e-6",
+            f"prop_negatives_{min(int((a < 0).sum()), 3)}{'+' if (a < 0).sum() > 3 else ''}", f"prop_pov_{pov}" if msd == "per" else "prop_pov_unused"]
+    amax = float(np.max(np.abs(a)))
+    _, Ss = fdd.SD_est(s[None, :].copy(), s[None, :].copy(), dt, nxseg, method=msd, pov=pov)
+    Ss = Ss[0, 0, :]
+    peak = float(np.max(np.abs(Ss)))
+    if not (peak > 0 and np.isfinite(peak)):
+        ctx.skipped += 1
+        return tags + ["prop_skipped_zero_spectrum"]
+
+    def judge(layer, freq, Sy, Fn, Phi):
+        ctx.oracle_cases += 1
+        ctx.nontrivial.add(("oracle", "proportional", layer, nch, msd, kind, nxseg))
+        where = f"proportional channels, {layer} layer, method {msd}"
+        # statement 1: Sy[:,:,k] = S(k) a a^T at every line
+        E = Sy - Ss[None, None, :] * np.outer(a, a)[:, :, None]
+        e = float(np.max(np.abs(E)) / (peak * amax**2))
+        if not e <= PROP_ENTRY_TOL:
+            ctx.violation(f"proportional:{layer}:Sy-not-S-a-aT", f"{where}: max |Sy - S(k) a a^T| = {e} of the peak", inp, observed=e, expected=f"<= {PROP_ENTRY_TOL}")
+            return
+        hits = np.where(freq == Fn)[0]
+        if len(hits) != 1:
+            ctx.violation(f"proportional:{layer}:fn-off-grid", f"{where}: returned frequency {Fn} is not a grid line", inp, observed=float(Fn))
+            return
+        k = int(hits[0])
+        df = fs / nxseg
+        lo, hi = _nearest(freq, sel - DF, df), _nearest(freq, sel + DF, df)
+        if lo is not None and hi is not None and not (lo <= k < hi):
+            ctx.violation(f"proportional:{layer}:line-outside-band", f"{where}: picked line {k} outside [{lo},{hi})", inp, observed=k, expected=[lo, hi])
+            return
+        if not abs(Ss[k]) * amax**2 > 1e-280:  # hypothesis S(k) != 0 (and no underflow)
+            ctx.skipped += 1
+            tags.append("prop_skipped_S_zero_at_pick")
+            return
+        dyn = abs(Ss[k]) / peak
+        tags.append(f"prop_{layer}_pick_level_" + ("above_1e-3" if dyn > 1e-3 else "1e-8_to_1e-3" if dyn > 1e-8 else "below_1e-8"))
+        # in floating point "S(k) != 0" means: above the rounding floor of the transform. Measured over 1.2e5 lines: the returned
+        # shape deviates from a/a[argmax|a|] by <= 1.4e-15/sqrt(dyn) (so 1-MAC <= 2e-30/dyn), dyn = |S(k)| / max|S|
+        if dyn < 1e-18:
+            ctx.skipped += 1
+            tags.append("prop_skipped_pick_at_rounding_floor")
+            return
+        # rank one at the picked line
+        sv = np.linalg.svd(Sy[:, :, k], compute_uv=False)
+        if not sv[1] <= PROP_SV_TOL * sv[0]:
+            ctx.violation(f"proportional:{layer}:Sy-not-rank-one", f"{where}: singular values at the picked line {k}: {sv[:2].tolist()}", inp,
+                          observed=float(sv[1] / sv[0]), expected=f"<= {PROP_SV_TOL}")
+            return
+        if not np.all(np.isfinite(Phi)):
+            ctx.violation(f"proportional:{layer}:shape-not-finite", f"{where}: returned shape {Phi}", inp, observed=str(Phi))
+            return
+        m = _mac(Phi, a.astype(complex))
+        if not m >= 1 - PROP_TOL:
+            ctx.violation(f"proportional:{layer}:shape-not-a", f"{where}: MAC(returned shape, a) = {m} at line {k}", inp, observed=float(m), expected=f">= {1 - PROP_TOL}")
+            return
+        # the theorem's exact form: a / a[first argmax |a|] (real, component 1)
+        if dyn < 1e-6:
+            tags.append(f"prop_{layer}_unit_form_not_judged_low_level")
+        elif _gap_ok(np.abs(a)):
+            j = int(np.argmax(np.abs(a)))
+            d = float(np.max(np.abs(Phi - a / a[j])))
+            if not d <= PROP_SHAPE_TOL:
+                ctx.violation(f"proportional:{layer}:shape-not-unit-a", f"{where}: returned shape differs from a/a[{j}] by {d}", inp, observed=d, expected=f"<= {PROP_SHAPE_TOL}")
+        else:
+            tags.append("prop_argmax_a_tie")
+
+    with warnings.catch_warnings(), np.errstate(all="ignore"):
+        warnings.simplefilter("ignore")
+        # function layer
+        Y0 = Y.copy()
+        freq, Sy = fdd.SD_est(Y, Y, dt, nxseg, method=msd, pov=pov)
+        Sval, Svec = fdd.SD_svalsvec(Sy)
+        Fn, Phi = fdd.FDD_mpe(Sval, Svec, freq, [sel], DF=DF)
+        if not np.array_equal(Y0, Y):
+            ctx.violation("caller-input-modified", "SD_est modified the data passed by the caller", inp)
+        tags.append("prop_second_sval_exact_zero_at_some_line" if (Sval[1, 1, :] == 0).any() else "prop_second_sval_nonzero")
+        judge("functions", freq, Sy, Fn[0], Phi[:, 0])
+        # class layer
+        setup = SingleSetup(Y.T.copy(), fs)
+        alg = FDD(name="a", nxseg=nxseg, method_SD=msd, pov=pov)
+        setup.add_algorithms(alg)
+        setup.run_by_name("a")
+        setup.mpe("a", sel_freq=[sel], DF=DF)
+        r = alg.result
+        judge("class", np.asarray(r.freq), np.asarray(r.Sy), np.asarray(r.Fn)[0], np.asarray(r.Phi)[:, 0])
+        # statement 2: superposition of nsrc such responses: Sy = Phi S Phi^T at every line
+        nsrc = prm.get("nsrc", 0)
+        if nsrc:
+            Sg = np.stack([_prop_signal(g, kind, N, fs) for _ in range(nsrc)])
+            P = g.standard_normal((nch, nsrc))
+            P[jt, :] *= 10.0 ** prm["tiny_exp"]
+            _, G = fdd.SD_est(P @ Sg, P @ Sg, dt, nxseg, method=msd, pov=pov)
+            _, S = fdd.SD_est(Sg, Sg, dt, nxseg, method=msd, pov=pov)
+            T = np.einsum("im,mnk,jn->ijk", P, S, P)
+            ctx.oracle_cases += 1
+            tags.append(f"prop_superposition_{nsrc}_sources")
+            e = float(np.max(np.abs(G - T)) / np.max(np.abs(T)))
+            if not e <= PROP_ENTRY_TOL:
+                ctx.violation("superposition:functions:Sy-not-Phi-S-PhiT", f"sum of {nsrc} proportional responses, method {msd}: max |Sy - Phi S Phi^T| = {e} of the peak",
+                              inp, observed=e, expected=f"<= {PROP_ENTRY_TOL}")
+    return tags
+
+
 class _ReplayCtx:
     def __init__(self):
         self.oracle_cases = 0
@@ -537,6 +729,8 @@ def replay(rec):
         _judge_faithful(c, "SD_svalsvec", Sy, Sval, Svec, inp)
         Fn, Phi = fdd.FDD_mpe(Sval, Svec, freq, [inp["sel"]], DF=inp["DF"])
         _judge_pick(c, "SD_svalsvec+FDD_mpe", Sy, freq, inp["sel"], inp["DF"], Fn[0], Phi[:, 0], inp)
+    elif inp.get("path") == "proportional":
+        _prop_case(c, inp)
     else:
         _class_case(c, inp)
     print("cases judged:", c.oracle_cases, "violations:", c.vs)
